@@ -30,6 +30,8 @@ package synchronizer
 //@   ensures [P2-distinct] result1 ==> forall i int, j int :: 0 <= i && i < j && j < len(result0) ==> result0[i].ID != result0[j].ID
 //@   ensures [P3-quorum] result1 ==> len(result0) >= hotstuff.Q(len(s.config.replicas))
 //@   ensures [P4-exactly-when] result1 == (!old(isdup(s.timeouts, timeout)) && old(cntv(s.timeouts, len(s.timeouts), timeout.View)) + 1 >= hotstuff.Q(len(s.config.replicas)))
+//@   ensures [P4-only-when] result1 ==> !old(isdup(s.timeouts, timeout)) && old(cntv(s.timeouts, len(s.timeouts), timeout.View)) + 1 >= hotstuff.Q(len(s.config.replicas))
+//@   ensures [P4-when] !old(isdup(s.timeouts, timeout)) && old(cntv(s.timeouts, len(s.timeouts), timeout.View)) + 1 >= hotstuff.Q(len(s.config.replicas)) ==> result1
 //@   loop 0 invariant [content] len(s.timeouts) == old(len(s.timeouts)) + 1 && s.timeouts[old(len(s.timeouts))] == timeout && (forall j int :: {s.timeouts[j].View} {s.timeouts[j].ID} 0 <= j && j < old(len(s.timeouts)) ==> s.timeouts[j] == old(s.timeouts[j]))
 //@   loop 0 invariant [cap] cap(timeoutList) == len(s.timeouts) && len(timeoutList) <= rangeindex + 1
 //@   loop 0 invariant [nodup] nodup(s.timeouts)
